@@ -74,7 +74,7 @@ Theorem c16_exit_decrements : forall t i a t' s, step t (On i a) = Some t' -> nt
 Proof. exact exit_decrements. Qed.
 
 (* the count never exceeds the configured maximum when sessions come through the accept loop *)
-Theorem c16_count_le_max : forall m t, (exists ls, run (init m 0) ls = Some t /\ forallb not_start ls = true) ->
+Theorem c16_count_le_max : forall m t, (exists r ls, run (init m 0 r) ls = Some t /\ forallb not_start ls = true) ->
   0 <= cnt t <= Z.max 0 m.
 Proof. exact count_le_max. Qed.
 
@@ -84,7 +84,7 @@ Theorem c16_surplus_closed : forall t i t', step t (Accept i) = Some t' -> maxc 
 Proof. exact surplus_closed. Qed.
 
 Theorem c16_accepted_below_max : forall t i t', step t (Accept i) = Some t' -> cnt t < maxc t ->
-  cnt t' = cnt t + 1 /\ ss t' = ss t ++ [fresh Tcp true].
+  cnt t' = cnt t + 1 /\ ss t' = ss t ++ [fresh Tcp true 0%nat].
 Proof. exact accepted_below_max. Qed.
 
 (* flush before a local close: nothing but Sends (any payloads, zero-length included) and Close happened, the connection is closed:
@@ -116,33 +116,68 @@ Theorem c16_refines_accept_machine : forall ls t t', GInv 0 t -> run t ls = Some
 Proof. exact run_refines. Qed.
 
 (* ... so the prototype's bound is a corollary: the count is the number of live sessions and at most the maximum *)
-Theorem c16_count_bounded_via_accept : forall m ls t, 0 <= m -> run (init m 0) ls = Some t -> forallb not_start ls = true ->
+Theorem c16_count_bounded_via_accept : forall m r ls t, 0 <= m -> run (init m 0 r) ls = Some t -> forallb not_start ls = true ->
   (Z.to_nat (cnt t) <= Z.to_nat m)%nat /\ Z.to_nat (cnt t) = length (ids is_live 0 (ss t)).
 Proof. exact count_bounded_via_accept. Qed.
 
+(* UpdateHandler: the exit callback goes to the handler in charge at the moment of the exit (s.rh, else the manager's),
+   once; when every UpdateHandler came before anything that can end the session, that is the handler installed last *)
+Theorem c16_exit_picks_current_handler : forall s s' d a, SInv s -> sess_step s a = Some (s', d) -> d = true ->
+  exit_h (hx s') = hid (hx s).
+Proof. exact exit_picks_current_handler. Qed.
+Theorem c16_exit_handler : forall m c0 t i s, reachable m c0 t -> nth_error (ss t) i = Some s -> started s = true ->
+  amb (hx s) = false -> exited s = true -> exit_h (hx s) = hid (hx s).
+Proof. exact exit_handler. Qed.
+
+(* the accept loop under errors of Accept: a temporary error below acceptMaxRetry keeps the loop and changes nothing
+   else; the acceptMaxRetry-th in a row ends it; it ends only that way or by Server.Close; if it was alive with nothing
+   waiting and is gone later without a Close, at least acceptMaxRetry Accept calls failed in between; none of this
+   touches the count, so the bound theorems above hold over every interleaving with these errors (they quantify over
+   all label lists, AcceptFail / FdExhaust / FdRestore / SrvClose included) *)
+Theorem c16_temporary_error_below_limit : forall t t', step t AcceptFail = Some t' -> (S (aretry (al t)) < amax (al t))%nat ->
+  aloop (al t') = true /\ aretry (al t') = S (aretry (al t)) /\ cnt t' = cnt t /\ ss t' = ss t /\ pend t' = pend t.
+Proof. exact temporary_error_below_limit. Qed.
+Theorem c16_temporary_error_at_limit : forall t t', step t AcceptFail = Some t' -> (amax (al t) <= S (aretry (al t)))%nat ->
+  aloop (al t') = false /\ cnt t' = cnt t /\ ss t' = ss t /\ pend t' = pend t.
+Proof. exact temporary_error_at_limit. Qed.
+Theorem c16_accept_loop_ends_only : forall c0 t, (exists m r ls, run (init m c0 r) ls = Some t) -> aloop (al t) = false ->
+  sclosed (al t) = true \/ (amax (al t) <= aretry (al t))%nat.
+Proof. exact accept_loop_ends_only. Qed.
+Theorem c16_loop_death_needs_retries : forall c0 t ls t', GInv c0 t -> aloop (al t) = true -> pend t = 0%nat -> run t ls = Some t' ->
+  aloop (al t') = false -> existsb is_srvclose ls = false -> (amax (al t) <= count_fail ls)%nat.
+Proof. exact loop_death_needs_retries. Qed.
+
 (* non-vacuity: runs of the model that satisfy the hypotheses above *)
-Theorem c16_demo_flush : exists t s, run (init 0 0)
-    [Start 0 Pipe true; On 0 (Send [1;2] true); On 0 (Send [3] true); On 0 LocalClose; On 0 SendStep; On 0 SendStep; On 0 SendStep; On 0 RecvEnd] = Some t
+Theorem c16_demo_handler : exists t s, run (init 0 0 3)
+    [Start 0 Pipe true 1; On 0 (SetHandler 2); On 0 LocalClose; On 0 SendStep; On 0 RecvEnd; On 0 (SetHandler 3)] = Some t
+  /\ nth_error (ss t) 0 = Some s /\ stable t = true /\ onexit s = 1%nat /\ exit_h (hx s) = 2%nat /\ hid (hx s) = 3%nat.
+Proof. exact demo_handler. Qed.
+Theorem c16_demo_accept_errors : exists t, run (init 1 0 2)
+    [FdExhaust; Arrive 0; AcceptFail; FdRestore; Accept 0; FdExhaust; Arrive 1; AcceptFail; AcceptFail] = Some t
+  /\ stable t = true /\ cnt t = 1 /\ pend t = 1%nat /\ aloop (al t) = false /\ length (ss t) = 1%nat.
+Proof. exact demo_accept_errors. Qed.
+Theorem c16_demo_flush : exists t s, run (init 0 0 3)
+    [Start 0 Pipe true 0; On 0 (Send [1;2] true); On 0 (Send [3] true); On 0 LocalClose; On 0 SendStep; On 0 SendStep; On 0 SendStep; On 0 RecvEnd] = Some t
   /\ nth_error (ss t) 0 = Some s /\ stable t = true /\ clean s = true /\ lclosed s = true /\ inbox s = [1;2;3] /\ onexit s = 1%nat /\ cnt t = 0.
 Proof. exact demo_flush. Qed.
-Theorem c16_demo_race : exists t s, run (init 0 0)
-    [Start 0 Tcp true; On 0 (Send [7] true); On 0 (RecvFault RPanic); On 0 LocalClose; On 0 RecvEnd; On 0 SendStep] = Some t
+Theorem c16_demo_race : exists t s, run (init 0 0 3)
+    [Start 0 Tcp true 0; On 0 (Send [7] true); On 0 (RecvFault RPanic); On 0 LocalClose; On 0 RecvEnd; On 0 SendStep] = Some t
   /\ nth_error (ss t) 0 = Some s /\ stable t = true /\ must_end s = true /\ inbox s = [] /\ onexit s = 1%nat /\ cnt t = 0.
 Proof. exact demo_race. Qed.
-Theorem c16_demo_accept : exists t, run (init 2 0)
+Theorem c16_demo_accept : exists t, run (init 2 0 3)
     [Arrive 0; Arrive 1; Arrive 2; Accept 0; Accept 1; Accept 2; On 0 PeerClose; On 0 RecvEnd; On 0 SendStep; Arrive 3; Arrive 4; Accept 3; Accept 4] = Some t
   /\ cnt t = 2 /\ map started (ss t) = [true; true; false; true; false].
 Proof. exact demo_accept. Qed.
 (* a zero-length payload is skipped; the payloads behind it are delivered (repair 225387c) *)
-Theorem c16_empty_payload_skipped : exists t s, run (init 0 0)
-    [Start 0 Pipe true; On 0 (Send [1] true); On 0 (Send [] true); On 0 (Send [2] true); On 0 LocalClose;
+Theorem c16_empty_payload_skipped : exists t s, run (init 0 0 3)
+    [Start 0 Pipe true 0; On 0 (Send [1] true); On 0 (Send [] true); On 0 (Send [2] true); On 0 LocalClose;
      On 0 SendStep; On 0 SendStep; On 0 SendStep; On 0 SendStep; On 0 RecvEnd] = Some t
   /\ nth_error (ss t) 0 = Some s /\ stable t = true /\ accepted s = [[1]; []; [2]] /\ inbox s = [1; 2] /\ onexit s = 1%nat /\ clean s = true.
 Proof. exact empty_payload_skipped. Qed.
 
 (* the pre-fix send loop (sess_step_prefix: a zero-length payload ends the loop) violates the flush clause *)
-Theorem c16_prefix_flush_refuted : exists t s, run_prefix (init 0 0)
-    [Start 0 Pipe true; On 0 (Send [1] true); On 0 (Send [] true); On 0 (Send [2] true); On 0 LocalClose;
+Theorem c16_prefix_flush_refuted : exists t s, run_prefix (init 0 0 3)
+    [Start 0 Pipe true 0; On 0 (Send [1] true); On 0 (Send [] true); On 0 (Send [2] true); On 0 LocalClose;
      On 0 SendStep; On 0 SendStep; On 0 RecvEnd] = Some t
   /\ nth_error (ss t) 0 = Some s /\ stable t = true /\ clean s = true /\ lclosed s = true /\ peer_reads s = true /\ copen s = false
   /\ accepted s = [[1]; []; [2]] /\ inbox s = [1] /\ inbox s <> concat (accepted s).
@@ -169,6 +204,14 @@ Print Assumptions c16_inbox_in_order.
 Print Assumptions c16_no_send_after_exit.
 Print Assumptions c16_refines_accept_machine.
 Print Assumptions c16_count_bounded_via_accept.
+Print Assumptions c16_exit_picks_current_handler.
+Print Assumptions c16_exit_handler.
+Print Assumptions c16_temporary_error_below_limit.
+Print Assumptions c16_temporary_error_at_limit.
+Print Assumptions c16_accept_loop_ends_only.
+Print Assumptions c16_loop_death_needs_retries.
+Print Assumptions c16_demo_handler.
+Print Assumptions c16_demo_accept_errors.
 Print Assumptions c16_demo_flush.
 Print Assumptions c16_demo_race.
 Print Assumptions c16_demo_accept.
